@@ -11,7 +11,7 @@ from ptstat import AnalysisError, algebra
 from ptstat.symval import SymObj, Phi, SymRaise
 from ptstat.world import World, mass_sym
 from spec import notation
-from .common import world, eq, fsite, raises, folder, _s
+from .common import world, eq, fsite, raises, folder, _s, constants_lint
 
 EXPLANATION = (
     "Reader shape: mass.init and density.init are interpreted from the current source on small probe "
@@ -190,6 +190,7 @@ def _lint(ctx, F):
     el_rows = [l.split() for l in F.const("mass", "element_mass").split("\n")]
     ab_lines = F.const("mass", "isotope_abundance").split("\n")
     dens = F.const("density", "element_densities")
+    constants_lint(ctx, "R6", ["neutron_mass", "avogadro_number"], "mass of the free neutron; number density = density N_A / mass")
     ctx.unit("isotope_mass_rows", len(iso_rows)); ctx.unit("element_mass_rows", len(el_rows)); ctx.unit("abundance_lines", len(ab_lines))
     site = "periodictable/mass.py"
     bad = [r for r in iso_rows if len(r) != 4 or not re.fullmatch(r"\d+-[A-Z][a-z]?-\d+", r[0])]
